@@ -92,7 +92,7 @@ EVIDENCE_NOTES = [
     "variant (rank strictly decreasing on the way out, incl. callback scripts, close dispatches, timer callback) hold in "
     "full; a theorem 'no library call on the loop after its deletion' is mechanised only as a characterisation "
     "(round 7, C14/ProofsUaf.v): uaf_only_by_step_after_delete - g_uaf never decreases and grows by one only at a step taken "
-    "while the loop is already freed - and the hazard witness loop_deleted_while_exit_in_flight_witness (requester between its "
+    "while the loop is already freed - no_call_after_delete_without_deletion (c_del = false: lfreed = false and g_uaf = 0 always) and the hazard witness loop_deleted_while_exit_in_flight_witness (requester between its "
     "store to to_exit and its wake-up write when another requester's exit lets run() return and the owner deletes the loop: "
     "outside the documented usage 'the loop object outlives every call on it'); the model counts such calls (g_uaf) and the "
     "monitor checks the traces of the del-* family",
